@@ -249,7 +249,7 @@ def precond(ins, regs):
             return bool(_smin(m) >= 0.2)
         if op == 'solve':
             m, b = np.asarray(regs[ins[1]]), np.asarray(regs[ins[2]])
-            if m.ndim != 2 or m.shape[0] != m.shape[1] or b.ndim not in (1, 2) or b.shape[0] != m.shape[0]:
+            if m.ndim != 2 or m.shape[0] != m.shape[1] or b.ndim != 2 or b.shape[0] != m.shape[0]:
                 return False
             if _is_cplx(m) or _is_cplx(b):
                 return False
@@ -724,7 +724,8 @@ def _emit_family(draw, S, fam, allow_set_broadcast=True, allow_ndim_dot=False, a
         a = _pick(draw, S, lambda r: S.ndim(r) == 2 and S.shape(r)[0] == S.shape(r)[1] and not S.cplx(r))
         if a is None:
             return False
-        b = _pick(draw, S, lambda r: S.ndim(r) in (1, 2) and S.shape(r)[0] == S.shape(a)[0] and not S.cplx(r))
+        # UTPM.solve requires a 2-D right hand side (it raises a ValueError saying so for vectors)
+        b = _pick(draw, S, lambda r: S.ndim(r) == 2 and S.shape(r)[0] == S.shape(a)[0] and not S.cplx(r))
         if b is None:
             return False
         return S.try_emit(['solve', a, b])
